@@ -75,6 +75,16 @@ func plan(seed int64, tier string) []vrt.Case {
 	for i := 0; i < nStress; i++ {
 		add(fmt.Sprintf("stress-%d", i), params{Kind: "stress", Idx: i, Rounds: rounds, Sc: scenario{Seed: seed}})
 	}
+	// the sent folder on another file system than the outbox (a linked folder); only where the machine has two
+	if otherFileSystem() {
+		for _, sz := range sizeNames {
+			sc := scenario{Op: "SetSent", Pre: 3, Size: sz, Seed: seed, Var: "sentfs"}
+			add("bnd-"+sc.String(), params{Kind: "boundaries", Sc: sc})
+			if sz != "small" {
+				add("par-"+sc.String(), params{Kind: "partial", Sc: sc, Set: "quick"})
+			}
+		}
+	}
 	// other ways the message the operation works on may be stored: behind a symbolic link, under a
 	// differently-cased extension
 	for _, v := range []struct {
